@@ -6,55 +6,70 @@ From Verif Require Import common.Sexp.
 Import ListNotations.
 Open Scope N_scope.
 
-Definition atom_of (cur : list N) : list tok :=
-  match cur with [] => [] | _ => [TA (rev_append cur [])] end.
+(* lexer and parser fused; every recursive call is a tail call (lines of 10^6 characters with 10^5
+   tokens must not use the OCaml stack) *)
+Definition push_atom (cur : list N) (stack : list (list sexp)) : option (list (list sexp)) :=
+  match cur with
+  | [] => Some stack
+  | _ => match stack with
+         | top :: st => Some ((Atom (rev_append cur []) :: top) :: st)
+         | [] => None
+         end
+  end.
 
-Fixpoint tokens_fast (cur : list N) (l : list N) : list tok :=
+Fixpoint pc (l : list N) (cur : list N) (stack : list (list sexp)) : option sexp :=
   match l with
-  | [] => atom_of cur
+  | [] => match push_atom cur stack with Some [[x]] => Some x | _ => None end
   | c :: r =>
       if is_space c then
-        match cur with [] => tokens_fast [] r | _ => atom_of cur ++ tokens_fast [] r end
+        match push_atom cur stack with Some st => pc r [] st | None => None end
       else if c =? lparen then
-        match cur with [] => TL :: tokens_fast [] r | _ => atom_of cur ++ TL :: tokens_fast [] r end
+        match push_atom cur stack with Some st => pc r [] ([] :: st) | None => None end
       else if c =? rparen then
-        match cur with [] => TR :: tokens_fast [] r | _ => atom_of cur ++ TR :: tokens_fast [] r end
-      else tokens_fast (c :: cur) r
+        match push_atom cur stack with
+        | Some (top :: nxt :: st) => pc r [] ((SList (rev_append top []) :: nxt) :: st)
+        | _ => None
+        end
+      else pc r (c :: cur) stack
   end.
 
-Fixpoint parse_toks_fast (ts : list tok) (stack : list (list sexp)) : option sexp :=
-  match ts with
-  | [] => match stack with [[x]] => Some x | _ => None end
-  | TA s :: r => match stack with
-                 | top :: st => parse_toks_fast r ((Atom s :: top) :: st)
-                 | [] => None end
-  | TL :: r => parse_toks_fast r ([] :: stack)
-  | TR :: r => match stack with
-               | top :: nxt :: st => parse_toks_fast r ((SList (rev_append top []) :: nxt) :: st)
-               | _ => None end
-  end.
-
-Definition parse_fast (l : list N) : option sexp := parse_toks_fast (tokens_fast [] l) [[]].
+Definition parse_fast (l : list N) : option sexp := pc l [] [[]].
 
 (* the two readers agree *)
-Lemma atom_of_spec : forall cur, atom_of cur = match cur with [] => [] | _ => [TA (rev cur)] end.
-Proof. intros. unfold atom_of. destruct cur; [reflexivity|]. now rewrite <- rev_alt. Qed.
-
-Lemma tokens_fast_spec : forall l cur, tokens_fast cur l = tokens_aux cur l.
+Lemma parse_flush : forall cur rest stack,
+  parse_toks (match cur with [] => [] | _ => [TA (rev cur)] end ++ rest) stack
+  = match push_atom cur stack with Some st => parse_toks rest st | None => None end.
 Proof.
-  induction l as [|c r IH]; intros cur; cbn [tokens_fast tokens_aux]; rewrite ?atom_of_spec; [reflexivity|].
-  destruct (is_space c); [destruct cur; rewrite IH; reflexivity|].
-  destruct (c =? lparen); [destruct cur; rewrite IH; reflexivity|].
-  destruct (c =? rparen); [destruct cur; rewrite IH; reflexivity|]. apply IH.
+  intros [|c cur] rest stack; [reflexivity|]. cbn [app parse_toks push_atom].
+  destruct stack; [reflexivity|]. now rewrite <- rev_alt.
 Qed.
 
-Lemma parse_toks_fast_spec : forall ts st, parse_toks_fast ts st = parse_toks ts st.
+Definition flush_of (cur : list N) : list tok := match cur with [] => [] | _ => [TA (rev cur)] end.
+
+Lemma tokens_aux_nil : forall cur, tokens_aux cur [] = flush_of cur.
+Proof. reflexivity. Qed.
+Lemma tokens_aux_cons : forall cur c r,
+  tokens_aux cur (c :: r)
+  = if is_space c then flush_of cur ++ tokens_aux [] r
+    else if c =? lparen then flush_of cur ++ TL :: tokens_aux [] r
+    else if c =? rparen then flush_of cur ++ TR :: tokens_aux [] r
+    else tokens_aux (c :: cur) r.
+Proof. reflexivity. Qed.
+
+Lemma pc_spec : forall l cur stack, pc l cur stack = parse_toks (tokens_aux cur l) stack.
 Proof.
-  induction ts as [|[| |s] r IH]; intros st; cbn; try reflexivity.
-  - apply IH.
-  - destruct st as [|top [|nxt st']]; try reflexivity. rewrite <- rev_alt. apply IH.
-  - destruct st; [reflexivity | apply IH].
+  induction l as [|c r IH]; intros cur stack; cbn [pc].
+  - rewrite tokens_aux_nil, <- (app_nil_r (flush_of cur)). unfold flush_of. rewrite parse_flush.
+    destruct (push_atom cur stack) as [[|[|x [|y t]] [|u w]]|]; reflexivity.
+  - rewrite tokens_aux_cons. unfold flush_of. destruct (is_space c).
+    { rewrite parse_flush. destruct (push_atom cur stack); [apply IH | reflexivity]. }
+    destruct (c =? lparen).
+    { rewrite parse_flush. destruct (push_atom cur stack); [cbn [parse_toks]; apply IH | reflexivity]. }
+    destruct (c =? rparen).
+    { rewrite parse_flush. destruct (push_atom cur stack) as [[|top [|nxt st]]|]; try reflexivity.
+      cbn [parse_toks]. rewrite <- rev_alt. apply IH. }
+    apply IH.
 Qed.
 
 Lemma parse_fast_spec : forall l, parse_fast l = parse l.
-Proof. intros. unfold parse_fast, parse, tokens. now rewrite tokens_fast_spec, parse_toks_fast_spec. Qed.
+Proof. intros. apply pc_spec. Qed.
